@@ -41,19 +41,32 @@ func (fp *filesystemCachePersistor) getFilename(key string) string {
 	return filepath.Join(fp.root, filename)
 }
 
+// Store writes the value to a temporary file and renames it over the final
+// name once it is complete, so that a concurrent Get (the generic cache calls
+// Store without holding its mutex) sees either the previous complete value or
+// the new complete value, never a truncated or half-written file.
 func (fp *filesystemCachePersistor) Store(key string, reader io.Reader) (int64, error) {
 	filename := fp.getFilename(key)
-	var written int64
-	{
-		f, err := os.OpenFile(filename, os.O_CREATE|os.O_TRUNC|os.O_WRONLY, 0o600)
-		if err != nil {
-			return 0, err
-		}
-		defer f.Close()
-		written, err = io.Copy(f, reader)
-		if err != nil {
-			return written, err
-		}
+	f, err := os.CreateTemp(fp.root, filepath.Base(filename)+".tmp-*")
+	if err != nil {
+		return 0, err
+	}
+	tmpFilename := f.Name()
+	written, err := io.Copy(f, reader)
+	if err != nil {
+		f.Close()
+		os.Remove(tmpFilename)
+		return written, err
+	}
+	err = f.Close()
+	if err != nil {
+		os.Remove(tmpFilename)
+		return written, err
+	}
+	err = os.Rename(tmpFilename, filename)
+	if err != nil {
+		os.Remove(tmpFilename)
+		return written, err
 	}
 	return written, nil
 }
@@ -85,8 +98,9 @@ func (fp *filesystemCachePersistor) Remove(key string) error {
 }
 
 func (fp *filesystemCachePersistor) RemoveAll() error {
-	glob := filepath.Join(fp.root, "*.cache")
-	files, _ := filepath.Glob(glob)
+	files, _ := filepath.Glob(filepath.Join(fp.root, "*.cache"))
+	tmpFiles, _ := filepath.Glob(filepath.Join(fp.root, "*.cache.tmp-*"))
+	files = append(files, tmpFiles...)
 	for _, file := range files {
 		err := os.Remove(file)
 		if err != nil {
